@@ -141,6 +141,14 @@ BasicRequest(b, v) ==
     /\ More
     /\ Step("basic", [b |-> b, v |-> v], IF v = pw THEN [served |-> TRUE, user |-> "hp"] ELSE [served |-> FALSE, class |-> [oneof |-> <<"signin", "idp_redirect", "401", "403">>]])
     /\ UNCHANGED <<br, stored, snaps, allowed, idpOK, member, pw, usedRT, nsid>>
+\* an API client presents a bearer token the provider issued for u just now (no cookie): the rules and the group membership IN FORCE decide,
+\* exactly as for a session; an expired token is no credential.  Nothing of the state changes.
+BearerRequest(u, k) ==
+    /\ More
+    /\ Step("bearer", [user |-> u, kind |-> k],
+            IF k = "good" /\ u \in allowed /\ u \in member THEN [served |-> TRUE, user |-> u]
+            ELSE [served |-> FALSE, class |-> [oneof |-> <<"signin", "idp_redirect", "401", "403">>]])
+    /\ UNCHANGED <<br, stored, snaps, allowed, idpOK, member, pw, usedRT, nsid>>
 PwChange ==
     /\ More
     /\ pw' = 3 - pw
@@ -169,6 +177,7 @@ Next == \/ (\E b \in Browsers, u \in Users : Login(b, u)) /\ P
         \/ (\E b \in Browsers, to \in {"stale", "expired"} : Age(b, to)) /\ P
         \/ (RulesChange \/ IdPToggle \/ StoreFlush \/ GroupChange("alice")) /\ P
         \/ (PwChange \/ \E b \in Browsers, v \in {1, 2} : BasicRequest(b, v)) /\ P
+        \/ (\E u \in Users, k \in {"good", "expired"} : BearerRequest(u, k)) /\ P
 
 \* ---- model-level properties -------------------------------------------------------------------------
 \* a browser is only ever served as the user of the credential it presents
